@@ -657,7 +657,10 @@ func (peer *peer) updatePrefixLimitConfig(conf *oc.Neighbor, c []oc.AfiSafi) (bo
 	return reachLimit, nil
 }
 
-func (peer *peer) handleUpdate(e *fsmMsg) ([]*table.Path, []bgp.Family, bool) {
+// handleUpdate turns a received UPDATE into paths. localClusterIDs returns the
+// CLUSTER_IDs this speaker reflects routes with; it is only called for a route
+// from an iBGP peer that carries a CLUSTER_LIST.
+func (peer *peer) handleUpdate(e *fsmMsg, localClusterIDs func() []netip.Addr) ([]*table.Path, []bgp.Family, bool) {
 	m := e.MsgData.(*bgp.BGPMessage)
 	update := m.Body.(*bgp.BGPUpdate)
 
@@ -724,6 +727,20 @@ func (peer *peer) handleUpdate(e *fsmMsg) ([]*table.Path, []bgp.Family, bool) {
 					path.SetRejected(true)
 					paths = append(paths, path.Clone(true))
 					continue
+				}
+				// If the local CLUSTER_ID is found in the CLUSTER_LIST,
+				// the advertisement received SHOULD be ignored.
+				if clusterList := path.GetClusterList(); len(clusterList) > 0 {
+					ids := localClusterIDs()
+					if slices.ContainsFunc(clusterList, func(id netip.Addr) bool { return slices.Contains(ids, id) }) {
+						peer.fsm.logger.Debug("cluster list path attribute has local cluster id, ignore",
+							slog.Any("ClusterList", clusterList),
+							slog.String("Data", path.String()))
+
+						path.SetRejected(true)
+						paths = append(paths, path.Clone(true))
+						continue
+					}
 				}
 			}
 			paths = append(paths, path)
